@@ -164,6 +164,26 @@ Theorem c16_answered_once_by_call_id :
 Proof. exact answered_by_call_id. Qed.
 Print Assumptions c16_answered_once_by_call_id.
 
+(* ... and at least once: a call announced by a well-formed done event (function_call item with a non-empty call id
+   and a name; the item id may be missing) in answer i is among the calls iteration i drains, whatever else the
+   answer contains, whenever the run goes on to a next request — where, by the theorem above, it is answered *)
+Theorem c16_emitted_call_answered :
+  forall g valid tool prompt init script pre it1 it2 post rd evs1 ev evs2 cid,
+  res_iters (run g valid tool prompt init script) = pre ++ it1 :: it2 :: post ->
+  nth_error script (length pre) = Some rd -> r_events rd = evs1 ++ ev :: evs2 -> wf_done ev cid ->
+  In cid (map c_id (it_calls it1)).
+Proof. exact emitted_call_answered. Qed.
+Print Assumptions c16_emitted_call_answered.
+
+(* a run that ends with "completed" left nothing unanswered: its last iteration drained no call, and every
+   earlier iteration has a successor (c16_answered_next_request applies to it) *)
+Theorem c16_completed_all_answered :
+  forall g valid tool prompt init script,
+  res_reason (run g valid tool prompt init script) = Completed ->
+  exists pre it, res_iters (run g valid tool prompt init script) = pre ++ [it] /\ it_calls it = [] /\ it_done it = [].
+Proof. exact completed_all_answered. Qed.
+Print Assumptions c16_completed_all_answered.
+
 (* ---- stateless-history mode: each request's input extends the previous one ---- *)
 Theorem c16_stateless_prefix :
   forall g valid tool prompt init script pre it1 it2 post,
@@ -187,6 +207,9 @@ Example c16_example_run :
   length (res_iters ex_run) = 2%nat /\ res_reason ex_run = Completed /\
   map (fun x => (c_id (x_call x), x_ran x)) (processed ex_run) = [(lit "c2", true); (lit "c1", false)].
 Proof. exact ex_run_shape. Qed.
+
+Example c16_example_wf_done : wf_done (w_done 0 "f1" "c1" "write" "{}") (lit "c1").
+Proof. exact ex_wf_done. Qed.
 
 Example c16_example_dedupe : length (drain (collect FIXED s19_events)) = 1%nat.
 Proof. exact s19_fixed_once. Qed.
